@@ -82,7 +82,7 @@ def build_mmt(rng, gen):
     e_a3 = gen.expr([s1, s3], 2)
     # a variable that reads the derivative of a state (dot(x) inside an expression), own component or foreign
     probe = rng.random() < 0.6
-    probe_def = f"rate_probe = 2 * dot({s1}) + dot(gate.{s3})\n    in [mV/ms]\n" if probe else ""
+    probe_def = f"rate_probe = 2 * dot({s1}) + dot(gate.{s3}) + 0.5 * dot(gate.{s2})\n    in [mV/ms]\n" if probe else ""   # s2 clashes with a sympy name
     probe_use = " + 0.01 * rate_probe" if probe else ""
     text = f"""[[model]]
 name: generated
